@@ -11,6 +11,17 @@ Kinds of case (`case['k']`):
   compl  complement_int_list(text, range_start, range_end)
   gzip   gunzip_bytes(gzip_bytes(b, level)) == b   - a differential TEST (zlib is external C code), not in the model
 
+Optional fields of a case (round 2):
+  pre    a list of earlier calls made in the same process just before the call under test: calls that RAISE
+         midway (floats in an int list, None among the arguments, malformed range text, junk gzip data) and
+         calls whose mutable RESULT the caller then modifies - the functions are pure, so no history may
+         change the outcome (state left behind by a failed call, memoised results handed out by reference)
+  form   the container the arguments arrive in: list (default) / tuple / iter (one-shot iterator) / set
+  dl     [delim, range_delim] for the integer-list functions (the model covers one-character pairs)
+  plat   'win32' for escape_shell_args: the value of sys.platform during the call
+Every call is also made twice (same outcome demanded), list arguments must come back unmodified, and the
+list returned by parse_int_list is modified by the harness before parse_int_list is called again.
+
 The two Lean reference lexers are themselves validated on every run (extra_checks): shSplit against the real
 shell(s) and shlex on hostile texts, crtSplit against the Python CRT parser; a disagreement there is an
 infrastructure error of the check (exit 2), never a verdict about boltons.
@@ -35,6 +46,24 @@ HOSTILE_MORE = HOSTILE + ['|', '<', '>', '(', ')', '?', '[', ']', '{', '}', '^',
                           '+', '_', '\x1b']
 CMD_CORE = ['\\', '"', ' ', 'a']
 WS = ' \t\n'
+
+# (delim, range_delim) pairs; the Lean model covers the one-character pairs (DelimOK: different, no digit, no blank -
+# the pairs outside DelimOK are still modelled faithfully, only the theorems do not speak about them)
+DELIMS = [[';', ':'], ['|', '~'], ['/', '_'], [':', '>'], ['x', '-'], [',', ':'], [';', '-'], ['-', ','], ['+', '_'],
+          ['\u00b7', '\u2192'], [' ', '-'], ['\n', '-'], ['; ', '-'], [',', '..'], ['|', ' to '], ['/', '\u2013']]
+
+# earlier calls that raise midway or whose result the caller modifies (see module docstring)
+PRE_STEPS = [
+    ['fmt', [1.0, 2.0]], ['fmt', [0.5, 1.5]], ['fmt', [3, 4.0, 5.0]], ['fmt', [2, 3, 4.5]], ['fmt', ['1', '2']],
+    ['fmt', [5, 6, None]], ['fmt', [4.0]],
+    ['parse', '1-3,7', 'clear'], ['parse', '1-3,7', 'grow'], ['parse', '7', 'grow'], ['parse', '', 'grow'],
+    ['parse', '1,,x', 'clear'], ['parse', '1-b', 'clear'], ['ranges', '1-b'], ['ranges', '1-3,7'],
+    ['compl', 'x', 0, None], ['compl', '1-3,7', 0, 10],
+    ['sh', [None]], ['sh', ['a b', 5]], ['sh', ['a b', "c'd", '']], ['sh', [5]],
+    ['cmd', ['a b', None]], ['cmd', ['x\\', 5]], ['cmd', ['a b\\', '', 'c"d']], ['cmd', [None]],
+    ['esa', [5], 'cmd'], ['esa', ['a b', None], 'sh'], ['esa', ['a'], 'bogus'],
+    ['gz', 'text', 6], ['gunz', '00ff'], ['gunz', '1f8b0800000000000003'],
+]
 
 
 def hx(s):
@@ -183,16 +212,18 @@ def ind_runs(values):
     return out
 
 
-_TOK = re.compile(r'(0|[1-9][0-9]*)(?:-(0|[1-9][0-9]*))?\Z')
+def _tok_re(rdelim):
+    return re.compile(r'(0|[1-9][0-9]*)(?:%s(0|[1-9][0-9]*))?\Z' % re.escape(rdelim))
 
 
-def ind_read(text, sep=','):
+def ind_read(text, sep=',', rdelim='-'):
     """read a range string as produced by a formatter: -> [(lo, hi)] or None if it is not of that shape"""
     if text == '':
         return []
     out = []
+    tok_re = _tok_re(rdelim)
     for tok in text.split(sep):
-        m = _TOK.match(tok)
+        m = tok_re.match(tok)
         if not m:
             return None
         lo = int(m.group(1))
@@ -206,22 +237,25 @@ def ind_read(text, sep=','):
     return out
 
 
-def ind_write(runs, rng=None):
+def ind_write(runs, rng=None, d=',', rd='-'):
     """a range string denoting the union of runs (non canonical when rng is given)"""
     toks = []
+
+    def one(lo, hi):
+        return '%d%s%d' % (lo, rd, hi) if hi > lo else '%d' % lo
     for lo, hi in runs:
         if rng is not None and hi > lo and rng.random() < 0.4:
             m = rng.randint(lo, hi - 1)
-            toks += ['%d-%d' % (lo, m) if m > lo else '%d' % lo, '%d-%d' % (m + 1, hi) if hi > m + 1 else '%d' % hi]
+            toks += [one(lo, m), one(m + 1, hi)]
         elif rng is not None and hi > lo and rng.random() < 0.3:
             toks += ['%d' % x for x in range(lo, hi + 1)]
         else:
-            toks.append('%d-%d' % (lo, hi) if hi > lo else '%d' % lo)
+            toks.append(one(lo, hi))
     if rng is not None:
         if toks and rng.random() < 0.5:
             toks.append(rng.choice(toks))
         rng.shuffle(toks)
-    return ','.join(toks)
+    return d.join(toks)
 
 
 def gz_data(spec):
@@ -258,13 +292,25 @@ class C14(Property):
             'compl = canonical or scrambled range text + window; gzip = bytes x level. Non-trivial: sh = an '
             'argument that needs quoting; cmd = an argument containing quote/backslash/blank or empty; fmt = a '
             'run of >= 2 consecutive values or a duplicate; parse = a text with a range token that parses; compl = '
-            'non-empty complement; gzip = non-empty data. distinct = distinct case.')
+            'non-empty complement; gzip = non-empty data. distinct = distinct case. ROUND 2, generated first: every '
+            'kind of call after each of 31 earlier calls that raise midway (floats / None / junk) or whose returned '
+            'list the caller modifies, run on a freshly executed module (hermetic, self-contained replay); arguments as '
+            'tuple / one-shot iterator / set, bools and 2**64-sized ints; escape_shell_args with sys.platform = win32 / '
+            'darwin; 16 (delim, range_delim) pairs (one-character pairs in the model, multi-character ones oracle '
+            'only) x all lists <= 3 over 0..4, scrambled texts, windows; gzip with the default level and 2-16 MiB of '
+            'compressible data. Every call is made twice (and once with delim_space / the window changed in '
+            'between), list arguments must come back unmodified, the list parse_int_list returned is modified before '
+            'parse_int_list is asked again; int_ranges_from_int_list of a well-formed text must be its maximal runs.')
     ASSUMPTIONS = [
         'argument strings are sequences of Unicode scalar values without NUL (no lone surrogates)',
         'args2sh output is read by a POSIX shell in argument position of a simple command (so `=` is inert)',
         'args2cmd output is read by the MS C runtime rules for arguments after argv[0]',
-        'escape_shell_args(style=None) is modelled for a platform other than win32 (the check runs on Linux)',
-        'integer lists hold non-negative ints; default delimiters (delim_space covered by the correspondence only)',
+        'escape_shell_args(style=None): sys.platform is a parameter of the model (win32 or not); the check sets sys.platform for the duration of the call',
+        'integer lists hold non-negative ints (bools count as 0/1); delimiters are one-character strings in the model, '
+        'the theorems ask for DelimOK (delim != range_delim, neither an ASCII digit nor a blank); multi-character '
+        'delimiters are covered by the oracle only',
+        'the functions are pure in the model; independence of earlier calls, of the argument container and of '
+        'caller-side modification of returned lists is checked on the implementation (oracle), not proved',
         'gzip clause: differential round-trip TEST only (zlib is external C code), not a theorem',
         'decimal rendering/parsing of ints is proved for the model\'s own toDigits/ofDigits and tied to Python by the correspondence',
     ]
@@ -364,9 +410,122 @@ class C14(Property):
     def deep_cases(self, budget_s):
         return self._chunks(self._deep())
 
+    # -- round 2: small, diverse, adversarial families that come FIRST
+    def _round2(self, rng, n_rand):
+        T = self.thorough
+        mains = [
+            {'k': 'sh', 'args': ['a b', "c'd", '']}, {'k': 'sh', 'args': ['plain']},
+            {'k': 'cmd', 'args': ['a b\\', '', 'c"d']}, {'k': 'cmd', 'args': ['plain\\']},
+            {'k': 'esa', 'style': 'cmd', 'args': ['a b\\', '']}, {'k': 'esa', 'style': 'sh', 'args': ['$a', '']},
+            {'k': 'fmt', 'L': [1, 2, 3, 7], 'sp': 0}, {'k': 'fmt', 'L': [7], 'sp': 0}, {'k': 'fmt', 'L': [], 'sp': 1},
+            {'k': 'fmt', 'L': [3, 1, 2, 2, 9], 'sp': 1, 'dl': [';', ':']},
+            {'k': 'parse', 's': '1-3,7'}, {'k': 'parse', 's': '7'},
+            {'k': 'compl', 's': '1-3,7', 'a': 0, 'e': 10}, {'k': 'compl', 's': '', 'a': 2, 'e': None},
+            {'k': 'gzip', 'spec': ['text', 1, 50], 'level': 6}, {'k': 'gzip', 'spec': ['rand', 2, 10], 'level': None},
+        ]
+        # (a) every main call after every single earlier call, and after a few pairs / the same call twice
+        for st in PRE_STEPS:
+            for m in mains:
+                yield dict(m, pre=[st])
+        for _ in range(60 if not T else 600):
+            yield dict(rng.choice(mains), pre=[rng.choice(PRE_STEPS) for _ in range(rng.choice([2, 2, 3, 5]))])
+        # (b) the arguments arrive as a tuple / a one-shot iterator / a set
+        lists = [[], [''], ['a'], ['a', ''], ['', ''], ['a b'], ['a', 'b c', "d'e"], ['\\', 'a b\\'], ['"'], ['a', 'b', 'c']]
+        for args in lists:
+            for form in ('tuple', 'iter'):
+                yield {'k': 'sh', 'args': args, 'form': form}
+                yield {'k': 'cmd', 'args': args, 'form': form}
+                for st in ('sh', 'cmd', None):
+                    yield {'k': 'esa', 'style': st, 'args': args, 'form': form}
+        for n in range(0, 4):
+            for t in itertools.product(range(4), repeat=n):
+                for form in ('tuple', 'iter', 'set'):
+                    yield {'k': 'fmt', 'L': list(t), 'sp': 0, 'form': form}
+        for L in ([True, 2, 0, False], [True], [False, False], [2, True, 3], [10 ** 30, 10 ** 30 + 1, 2 ** 64, 2 ** 64 - 1, 2 ** 53, 2 ** 53 + 1]):
+            yield {'k': 'fmt', 'L': L, 'sp': 0}
+        # (c) escape_shell_args on win32 (style=None means cmd there)
+        for st in ('sh', 'cmd', None, '', 'bogus'):
+            for args in ([], [''], ['a b', "c'd", 'e"f\\'], ['$a', '*'], ['a b\\']):
+                yield {'k': 'esa', 'style': st, 'args': args, 'plat': 'win32'}
+                yield {'k': 'esa', 'style': st, 'args': args, 'plat': 'darwin'}
+        # (d) delimiters other than the defaults
+        for dl in DELIMS:
+            for n in range(0, 4):
+                for t in itertools.product(range(5), repeat=n):
+                    yield {'k': 'fmt', 'L': list(t), 'sp': n % 2 if n < 3 else (t[0] + t[1]) % 2, 'dl': dl}
+            yield {'k': 'fmt', 'L': [98, 99, 100, 101, 7, 1000, 999, 5], 'sp': 1, 'dl': dl}
+            for bits in range(0, 32):
+                S = [i for i in range(5) if bits >> i & 1]
+                text = ind_write(ind_runs(S), None, dl[0], dl[1])
+                for a, e in ((0, None), (1, 4), (-1, 7), (0, 0), (2, None), (3, 2)):
+                    yield {'k': 'compl', 's': text, 'a': a, 'e': e, 'dl': dl}
+                yield {'k': 'parse', 's': text, 'dl': dl}
+            for _ in range(20 if not T else 200):
+                S = [rng.randrange(30) for _ in range(rng.choice([1, 3, 6, 10]))]
+                text = ind_write(ind_runs(S), rng, dl[0], dl[1])
+                yield {'k': 'parse', 's': text, 'dl': dl}
+                yield {'k': 'compl', 's': text, 'a': rng.choice([0, 0, 1, 5, -2]), 'e': rng.choice([None, 0, 10, 31, 40]), 'dl': dl}
+            if self.model_delims(*dl):
+                palpha = ['1', '0', dl[0], dl[1], ' ']
+                for n in range(0, 5 if T else 4):
+                    for t in itertools.product(palpha, repeat=n):
+                        yield {'k': 'parse', 's': ''.join(t), 'dl': dl}
+        # (f) long inputs: arguments around typical buffer sizes, many arguments, long integer lists / wide windows
+        longs = ['\\' * 257 + '"', 'a' * 4096 + ' ', "'" * 300, ('a b\\"' * 700)[:4099], '\\' * 1023 + ' ' + '\\' * 1025,
+                 'x' * 65536, "$'" * 2048]
+        for a in longs:
+            yield {'k': 'sh', 'args': [a]}
+            yield {'k': 'cmd', 'args': [a]}
+        for args in ([rng.choice(['', 'a', ' ', '"', '\\', "'", 'b c']) for _ in range(300)], longs[:5], [''] * 129):
+            yield {'k': 'sh', 'args': args}
+            yield {'k': 'cmd', 'args': args}
+            yield {'k': 'esa', 'style': rng.choice(['sh', 'cmd']), 'args': args, 'form': 'iter'}
+        big = [x for x in range(0, 3000) if x % 97 not in (5, 6, 50)] + [2 ** 40 + i for i in range(300)]
+        rng.shuffle(big)
+        yield {'k': 'fmt', 'L': big + big[:50], 'sp': 0}
+        yield {'k': 'fmt', 'L': big[:1500], 'sp': 1, 'dl': [';', ':']}
+        small = [x for x in big if x < 3000]      # (a window is materialised by the code: keep it small)
+        text = ind_write(ind_runs(small[:800] + [7000]))
+        yield {'k': 'compl', 's': text, 'a': 0, 'e': None}
+        yield {'k': 'compl', 's': text, 'a': 250, 'e': 9000}
+        yield {'k': 'parse', 's': ind_write(ind_runs(small[:800]), rng)}
+        # (e) gzip: the default level, and highly compressible data well beyond any internal buffer size
+        for i, n in enumerate([0, 1, 100, 65536, 70000]):
+            yield {'k': 'gzip', 'spec': [['rand', 'rep', 'text', 'zeros', 'gzlike'][i % 5], 7000 + i, n], 'level': None}
+        for kind, n, lvl in (('zeros', (1 << 24) + 1, 1), ('rep', (1 << 23) + 5, 6), ('zeros', (1 << 22) + 3, 9), ('rep', 1 << 21, None)):
+            yield {'k': 'gzip', 'spec': [kind, n % 1000, n], 'level': lvl}
+        if T:
+            yield {'k': 'gzip', 'spec': ['zeros', 1, (1 << 28) + 7], 'level': 1}
+            yield {'k': 'gzip', 'spec': ['rep', 2, (1 << 26) + 1], 'level': 9}
+
+    def decorate(self, rng, c):
+        """now and then: earlier calls, another container, other delimiters, another platform"""
+        r = rng.random()
+        if r < 0.06:
+            c = dict(c, pre=[rng.choice(PRE_STEPS) for _ in range(rng.choice([1, 1, 2, 3]))])
+        k = c['k']
+        r = rng.random()
+        if k in ('sh', 'cmd', 'esa') and r < 0.08:
+            c = dict(c, form=rng.choice(['tuple', 'iter']))
+        elif k == 'fmt' and r < 0.08:
+            c = dict(c, form=rng.choice(['tuple', 'iter', 'set']))
+        elif k in ('fmt', 'parse', 'compl') and r < 0.25 and 'dl' not in c:
+            dl = rng.choice(DELIMS)
+            if k != 'fmt':
+                c = dict(c, s=c['s'].replace(',', '\0').replace('-', dl[1]).replace('\0', dl[0]))
+            c = dict(c, dl=dl)
+        if k == 'esa' and rng.random() < 0.3:
+            c = dict(c, plat='win32')
+        if k == 'gzip' and rng.random() < 0.15:
+            c = dict(c, level=None)
+        return c
+
     def _cases(self):
         rng = self.rng
         T = self.thorough
+        n_rand = 300000 if T else 20000
+        # -- round 2 families first: histories, containers, platforms, delimiters, gzip defaults / large data
+        yield from self._round2(rng, n_rand)
         # -- shell quoting, exhaustive small scope
         small = [''.join(t) for n in range(0, 3) for t in itertools.product(HOSTILE, repeat=n)]
         small += [''.join(t) for t in itertools.product(HOSTILE if T else HOSTILE[:12], repeat=3)]
@@ -421,26 +580,26 @@ class C14(Property):
                 kind = ['rand', 'rep', 'text', 'zeros', 'gzlike'][(i + lvl) % 5]
                 yield {'k': 'gzip', 'spec': [kind, lvl * 100 + i, n], 'level': lvl}
         # -- seeded random, larger scope
-        n_rand = 300000 if T else 12000
         for i in range(n_rand):
             r = rng.random()
             if r < 0.25:
-                yield {'k': 'sh', 'args': self.rand_args(rng)}
+                c = {'k': 'sh', 'args': self.rand_args(rng)}
             elif r < 0.27:
-                yield {'k': 'esa', 'style': rng.choice(['sh', 'cmd', None, '', 'bogus', 'sh ', 'CMD']),
-                       'args': self.rand_args(rng)}
+                c = {'k': 'esa', 'style': rng.choice(['sh', 'cmd', None, '', 'bogus', 'sh ', 'CMD']),
+                     'args': self.rand_args(rng)}
             elif r < 0.50:
-                yield {'k': 'cmd', 'args': self.rand_args(rng, cmd=True)}
+                c = {'k': 'cmd', 'args': self.rand_args(rng, cmd=True)}
             elif r < 0.68:
-                yield {'k': 'fmt', 'L': self.rand_ints(rng), 'sp': int(rng.random() < 0.25)}
+                c = {'k': 'fmt', 'L': self.rand_ints(rng), 'sp': int(rng.random() < 0.25)}
             elif r < 0.80:
-                yield {'k': 'parse', 's': self.rand_range_text(rng)}
+                c = {'k': 'parse', 's': self.rand_range_text(rng)}
             elif r < 0.95:
-                yield self.rand_compl(rng)
+                c = self.rand_compl(rng)
             else:
-                yield {'k': 'gzip', 'spec': [rng.choice(['rand', 'rep', 'text', 'zeros', 'gzlike']),
-                                            rng.randrange(10 ** 6), rng.choice([0, 1, 5, 17, 300, 4097, 20000])],
-                       'level': rng.randint(1, 9)}
+                c = {'k': 'gzip', 'spec': [rng.choice(['rand', 'rep', 'text', 'zeros', 'gzlike']),
+                                          rng.randrange(10 ** 6), rng.choice([0, 1, 5, 17, 300, 4097, 20000])],
+                     'level': rng.randint(1, 9)}
+            yield self.decorate(rng, c)
         # -- adversarial
         for c in self.adversarial(rng, 3000 if T else 300):
             yield c
@@ -458,15 +617,16 @@ class C14(Property):
         while True:
             r = rng.random()
             if r < 0.35:
-                yield {'k': 'sh', 'args': self.rand_args(rng)}
+                c = {'k': 'sh', 'args': self.rand_args(rng)}
             elif r < 0.6:
-                yield {'k': 'cmd', 'args': self.rand_args(rng, cmd=True)}
+                c = {'k': 'cmd', 'args': self.rand_args(rng, cmd=True)}
             elif r < 0.8:
-                yield {'k': 'fmt', 'L': self.rand_ints(rng), 'sp': int(rng.random() < 0.25)}
+                c = {'k': 'fmt', 'L': self.rand_ints(rng), 'sp': int(rng.random() < 0.25)}
             elif r < 0.9:
-                yield {'k': 'parse', 's': self.rand_range_text(rng)}
+                c = {'k': 'parse', 's': self.rand_range_text(rng)}
             else:
-                yield self.rand_compl(rng)
+                c = self.rand_compl(rng)
+            yield self.decorate(rng, c)
 
     def rand_args(self, rng, cmd=False):
         alpha = rng.choice([HOSTILE, HOSTILE_MORE, CMD_CORE + ['\t', 'b'] if cmd else HOSTILE_MORE,
@@ -549,8 +709,24 @@ class C14(Property):
             yield {'k': 'fmt', 'L': L, 'sp': 0}
 
     # ------------------------------------------------------------------ model line
+    @staticmethod
+    def _dl(case):
+        dl = case.get('dl')
+        return (dl[0], dl[1]) if dl else (',', '-')
+
+    @staticmethod
+    def model_delims(d, rd):
+        """the model has one-character delimiters; its blanks are ' ', tab, newline (Python's str.strip()/int()
+        know more), so any other white-space character as a delimiter is left to the oracle"""
+        for c in (d, rd):
+            if len(c) != 1 or has_surrogate(c) or c == '\0' or (c.isspace() and c not in WS):
+                return False
+        return True
+
     def line(self, case):
         k = case['k']
+        if k in ('sh', 'cmd', 'esa') and any(len(a) > 5000 for a in case['args']):
+            return None     # the reference lexers of the model build words by appending (quadratic): oracle only
         if k in ('sh', 'cmd'):
             if any('\0' in a or has_surrogate(a) for a in case['args']):
                 return None
@@ -558,26 +734,32 @@ class C14(Property):
         if k == 'esa':
             if any('\0' in a or has_surrogate(a) for a in case['args']):
                 return None
-            return ' '.join(['esa', hx(case['style'] or '')] + [hx(a) for a in case['args']])
-        if k == 'fmt':
-            if any((not isinstance(x, int)) or x < 0 for x in case['L']):
+            return ' '.join(['esaw' if case.get('plat') == 'win32' else 'esa', hx(case['style'] or '')] +
+                            [hx(a) for a in case['args']])
+        if k in ('fmt', 'parse', 'compl'):
+            d, rd = self._dl(case)
+            if not self.model_delims(d, rd):
                 return None
-            return 'fmt %d %s' % (case['sp'], ','.join(map(str, case['L'])) or '-')
-        if k == 'parse':
-            if not self.in_parse_alphabet(case['s']):
+            custom = 'dl' in case
+            pre = [hx(d), hx(rd)] if custom else []
+            if k == 'fmt':
+                if any((not isinstance(x, int)) or x < 0 for x in case['L']):
+                    return None
+                ints = ','.join(str(int(x)) for x in case['L']) or '-'
+                return ' '.join(['fmtd' if custom else 'fmt', '%d' % case['sp']] + pre + [ints])
+            if not self.in_parse_alphabet(case['s'], d, rd):
                 return None
-            return 'parse %s' % hx(case['s'])
-        if k == 'compl':
-            if not self.in_parse_alphabet(case['s']):
-                return None
-            return 'compl %s %d %s' % (hx(case['s']), case['a'], 'N' if case['e'] is None else case['e'])
+            if k == 'parse':
+                return ' '.join(['parsed' if custom else 'parse'] + pre + [hx(case['s'])])
+            return ' '.join(['compld' if custom else 'compl'] + pre +
+                            [hx(case['s']), '%d' % case['a'], 'N' if case['e'] is None else '%d' % case['e']])
         return None
 
     @staticmethod
-    def in_parse_alphabet(s):
+    def in_parse_alphabet(s, d=',', rd='-'):
         # the model's int() knows ASCII digits and the blanks ' ', tab, newline only; digit strings short
         # enough for CPython's int() (no 4300-digit limit effects)
-        return all(c in '0123456789,-' + WS for c in s) and len(s) < 2000
+        return all(c in '0123456789' + d + rd + WS for c in s) and len(s) < 2000
 
     # ------------------------------------------------------------------ implementation
     def _sh(self, text):
@@ -590,81 +772,213 @@ class C14(Property):
             self._shcache[text] = hit
         return hit
 
+    def _run_pre(self, strutils, steps):
+        """earlier calls in the same process; whatever they do (most of them raise) is swallowed"""
+        for st in steps:
+            self.stats['pre_steps'] = self.stats.get('pre_steps', 0) + 1
+            try:
+                fn = st[0]
+                if fn == 'fmt':
+                    strutils.format_int_list(list(st[1]))
+                elif fn == 'parse':
+                    r = strutils.parse_int_list(st[1])
+                    if st[2] == 'clear':        # the caller owns the returned list
+                        del r[:]
+                    else:
+                        r.append(10 ** 6)
+                        r.reverse()
+                elif fn == 'ranges':
+                    strutils.int_ranges_from_int_list(st[1])
+                elif fn == 'compl':
+                    if st[3] is None:
+                        strutils.complement_int_list(st[1], range_start=st[2])
+                    else:
+                        strutils.complement_int_list(st[1], range_start=st[2], range_end=st[3])
+                elif fn == 'sh':
+                    strutils.args2sh(list(st[1]))
+                elif fn == 'cmd':
+                    strutils.args2cmd(list(st[1]))
+                elif fn == 'esa':
+                    strutils.escape_shell_args(list(st[1]), style=st[2])
+                elif fn == 'gz':
+                    strutils.gzip_bytes(st[1], st[2])
+                elif fn == 'gunz':
+                    strutils.gunzip_bytes(bytes.fromhex(st[1]))
+            except CaseTimeout:
+                raise
+            except Exception:
+                self.stats['pre_raised'] = self.stats.get('pre_raised', 0) + 1
+
+    @staticmethod
+    def _alt_end(case):
+        return (case['e'] if case['e'] is not None else max(case['a'], 0)) + 2
+
+    @staticmethod
+    def _container(items, form):
+        if form == 'tuple':
+            return tuple(items)
+        if form == 'iter':
+            return iter(list(items))
+        if form == 'set':
+            return set(items)
+        return list(items)
+
     def impl(self, case):
+        if not case.get('pre'):
+            return self._impl(case)
+        # a case with a history is hermetic: it starts from a freshly executed module (so the failure it shows is
+        # due to ITS earlier calls and the replay file is self-contained) and leaves a fresh module behind
         from boltons import strutils
+        try:
+            self._reexec(strutils)
+            return self._impl(case)
+        except Exception as e:     # the module itself no longer loads
+            return {'exc': exc_name(e)}
+        finally:
+            try:
+                self._reexec(strutils)
+            except Exception:
+                pass
+
+    def _reexec(self, mod):
+        """what importlib.reload does - run the module body again in the module's namespace, so that every
+        module-level object is rebuilt - with the compiled source kept (compiling is 97 % of a reload)"""
+        code = getattr(self, '_modcode', None)
+        if code is None:
+            with open(mod.__file__, 'rb') as f:
+                code = self._modcode = compile(f.read(), mod.__file__, 'exec')
+        exec(code, mod.__dict__)
+
+    def _impl(self, case):
+        from boltons import strutils
+        import sys
         k = case['k']
         self.stats['kinds'][k] = self.stats['kinds'].get(k, 0) + 1
+        form = case.get('form', 'list')
+        if form != 'list':
+            self.stats['forms'] = self.stats.get('forms', {})
+            self.stats['forms'][form] = self.stats['forms'].get(form, 0) + 1
         try:
             with time_limit(10):
-                if k == 'sh':
-                    args = list(case['args'])
-                    text = strutils.args2sh(args)
-                    esa = strutils.escape_shell_args(list(args), style='sh')
+                if case.get('pre'):
+                    self._run_pre(strutils, case['pre'])
+                if k in ('sh', 'cmd'):
+                    fn = strutils.args2sh if k == 'sh' else strutils.args2cmd
+                    orig = list(case['args'])
+                    a1 = self._container(orig, form)
+                    text = fn(a1)
+                    pure = not isinstance(a1, list) or (a1 == orig and all(type(x) is str for x in a1))
+                    a2 = self._container(orig, form)
+                    esa = strutils.escape_shell_args(a2, style=k)
+                    pure = pure and (not isinstance(a2, list) or a2 == orig)
+                    again = fn(self._container(orig, form))
                     if not isinstance(text, str):
                         return {'exc': 'NotAString'}
-                    obs = {'text': text, 'esa': esa, 'shlex': shlex_split(text)}
-                    obs.update(self._sh(text))
-                    return obs
-                if k == 'cmd':
-                    args = list(case['args'])
-                    text = strutils.args2cmd(args)
-                    esa = strutils.escape_shell_args(list(args), style='cmd')
-                    if not isinstance(text, str):
-                        return {'exc': 'NotAString'}
-                    return {'text': text, 'esa': esa}
-                if k == 'esa':
-                    try:
-                        text = strutils.escape_shell_args(list(case['args']), style=case['style'])
-                    except ValueError:
-                        return {'text': None}
-                    if not isinstance(text, str):
-                        return {'exc': 'NotAString'}
-                    obs = {'text': text}
-                    if case['style'] in ('sh', None, ''):
+                    obs = {'text': text, 'esa': esa, 'again': again, 'pure': pure}
+                    if k == 'sh':
                         obs['shlex'] = shlex_split(text)
                         obs.update(self._sh(text))
                     return obs
-                if k == 'fmt':
-                    text = strutils.format_int_list(list(case['L']), delim_space=bool(case['sp']))
+                if k == 'esa':
+                    orig = list(case['args'])
+                    plat = case.get('plat')
+                    old = sys.platform
+                    try:
+                        if plat:
+                            sys.platform = plat
+                        a1 = self._container(orig, form)
+                        try:
+                            text = strutils.escape_shell_args(a1, style=case['style'])
+                        except ValueError:
+                            return {'text': None}
+                        again = strutils.escape_shell_args(self._container(orig, form), style=case['style'])
+                    finally:
+                        sys.platform = old
                     if not isinstance(text, str):
                         return {'exc': 'NotAString'}
-                    obs = {'text': text}
+                    obs = {'text': text, 'again': again, 'pure': not isinstance(a1, list) or a1 == orig}
+                    eff = case['style'] or ('cmd' if plat == 'win32' else 'sh')
+                    if eff == 'sh':
+                        obs['shlex'] = shlex_split(text)
+                        obs.update(self._sh(text))
+                    return obs
+                if k in ('fmt', 'parse', 'compl'):
+                    kw = {}
+                    if 'dl' in case:
+                        kw = {'delim': case['dl'][0], 'range_delim': case['dl'][1]}
+                if k == 'fmt':
+                    orig = list(case['L'])
+                    l1 = self._container(orig, form)
+                    text = strutils.format_int_list(l1, delim_space=bool(case['sp']), **kw)
+                    if not isinstance(text, str):
+                        return {'exc': 'NotAString'}
+                    obs = {'text': text, 'pure': not isinstance(l1, list) or (l1 == orig and list(map(type, l1)) == list(map(type, orig)))}
+                    # the same list with the other delim_space, then the first call again
+                    obs['alt'] = strutils.format_int_list(self._container(orig, form), delim_space=not case['sp'], **kw)
+                    obs['again'] = strutils.format_int_list(self._container(orig, form), delim_space=bool(case['sp']), **kw)
                     try:
-                        obs['parsed'] = list(strutils.parse_int_list(text))
+                        r = strutils.parse_int_list(text, **kw)
+                        obs['parsed'] = list(r)
+                        if isinstance(r, list):     # the caller owns the returned list: use it, then ask again
+                            r.append(-7)
+                            r.reverse()
+                        obs['parsed2'] = list(strutils.parse_int_list(text, **kw))
                     except Exception as e:
-                        obs['parsed'] = {'exc': exc_name(e)}
+                        obs.setdefault('parsed', {'exc': exc_name(e)})
+                        obs.setdefault('parsed2', {'exc': exc_name(e)})
                     try:
-                        obs['ranges'] = [list(p) for p in strutils.int_ranges_from_int_list(text)]
+                        obs['ranges'] = [list(p) for p in strutils.int_ranges_from_int_list(text, **kw)]
                     except Exception as e:
                         obs['ranges'] = {'exc': exc_name(e)}
                     return obs
                 if k == 'parse':
                     obs = {}
                     try:
-                        obs['parsed'] = list(strutils.parse_int_list(case['s']))
+                        r = strutils.parse_int_list(case['s'], **kw)
+                        obs['parsed'] = list(r)
+                        if isinstance(r, list):
+                            r.append(-7)
+                            r.reverse()
+                        obs['parsed2'] = list(strutils.parse_int_list(case['s'], **kw))
                     except Exception as e:
-                        obs['parsed'] = {'exc': exc_name(e)}
+                        obs.setdefault('parsed', {'exc': exc_name(e)})
+                        obs.setdefault('parsed2', {'exc': exc_name(e)})
                     try:
-                        obs['ranges'] = [list(p) for p in strutils.int_ranges_from_int_list(case['s'])]
+                        obs['ranges'] = [list(p) for p in strutils.int_ranges_from_int_list(case['s'], **kw)]
                     except Exception as e:
                         obs['ranges'] = {'exc': exc_name(e)}
                     return obs
                 if k == 'compl':
-                    if case['e'] is None:
-                        text = strutils.complement_int_list(case['s'], range_start=case['a'])
-                    else:
-                        text = strutils.complement_int_list(case['s'], range_start=case['a'], range_end=case['e'])
-                    return {'text': text} if isinstance(text, str) else {'exc': 'NotAString'}
+                    def call():
+                        if case['e'] is None:
+                            return strutils.complement_int_list(case['s'], range_start=case['a'], **kw)
+                        return strutils.complement_int_list(case['s'], range_start=case['a'], range_end=case['e'], **kw)
+                    text = call()
+                    if not isinstance(text, str):
+                        return {'exc': 'NotAString'}
+                    # the same text with another window (one later start, an explicit end 2 further), then again
+                    alt = strutils.complement_int_list(case['s'], range_start=case['a'] + 1,
+                                                       range_end=self._alt_end(case), **kw)
+                    return {'text': text, 'alt': alt, 'again': call()}
                 if k == 'gzip':
                     data = gz_data(case['spec'])
-                    z = strutils.gzip_bytes(data, case['level'])
+                    if case['level'] is None:
+                        z = strutils.gzip_bytes(data)
+                    else:
+                        z = strutils.gzip_bytes(data, case['level'])
                     back = strutils.gunzip_bytes(z)
                     try:
                         std = _gzip.decompress(z) == data
                     except Exception:
                         std = False
+                    try:        # a third reader: streaming inflate of exactly one complete gzip member
+                        dobj = zlib.decompressobj(16 + zlib.MAX_WBITS)
+                        out = dobj.decompress(z) + dobj.flush()
+                        stream = out == data and dobj.eof and dobj.unused_data == b''
+                    except Exception:
+                        stream = False
                     return {'n': len(data), 'zn': len(z), 'roundtrip': back == data, 'std_gunzip': std,
-                            'magic': z[:2].hex()}
+                            'stream_gunzip': stream, 'magic': bytes(z[:2]).hex()}
         except CaseTimeout:
             self.stats['exc']['CaseTimeout'] = self.stats['exc'].get('CaseTimeout', 0) + 1
             return {'exc': 'CaseTimeout'}
@@ -702,21 +1016,38 @@ class C14(Property):
         if k == 'fmt':
             return 'T%s P%s R%s' % (hx(obs['text']), self._nats(obs['parsed']), self._ranges(obs['ranges']))
         if k == 'parse':
-            return 'P%s R%s' % (self._nats(obs['parsed']), self._ranges(obs['ranges']))
+            # the model is a pure function: a second call (after the caller modified the first result) that
+            # answers differently cannot correspond to it
+            unstable = '' if obs['parsed2'] == obs['parsed'] else ' (second call: %s)' % self._nats(obs['parsed2'])
+            return 'P%s R%s%s' % (self._nats(obs['parsed']), self._ranges(obs['ranges']), unstable)
         if k == 'compl':
             return 'T%s' % hx(obs['text'])
         return '?'
 
     # ------------------------------------------------------------------ oracle (independent of the model)
     def oracle(self, case, obs):
+        f = self._oracle(case, obs)
+        if f is not None and case.get('pre'):
+            f.what += ' [after the earlier calls %r]' % (case['pre'],)
+        return f
+
+    def _oracle(self, case, obs):
         k = case['k']
         self._nt = False
-        if k == 'parse':
-            # the statement says nothing about arbitrary texts: correspondence only
-            self._nt = isinstance(obs.get('parsed'), list) and '-' in case['s']
-            return None
-        if 'exc' in obs:
+        if 'exc' in obs and not (k == 'parse'):
             return Failure(k + '-raises', '%s raised %s on %r' % (k, obs['exc'], self.describe(case)))
+        if k == 'parse':
+            # the statement says nothing about parse_int_list on arbitrary texts: correspondence only.  For a
+            # well-formed range text the tuple of ranges must be the maximal runs of what it denotes.
+            d, rd = self._dl(case)
+            self._nt = isinstance(obs.get('parsed'), list) and rd in case['s']
+            S = self._meaning(case['s'], d, rd) if 'exc' not in obs else None
+            if S is not None:
+                want = [list(p) for p in ind_runs(S)]
+                if obs['ranges'] != want:
+                    return Failure('int-ranges', 'int_ranges_from_int_list(%r%s) = %r, expected the maximal ranges %r'
+                                   % (case['s'], self._dlnote(case), obs['ranges'], want))
+            return None
         if k == 'esa':
             args = list(case['args'])
             if any('\0' in a or has_surrogate(a) for a in args):
@@ -737,6 +1068,8 @@ class C14(Property):
                     if obs[name] != args:
                         return Failure('sh-split', "%s splits escape_shell_args(style='sh') text %r into %r, not %r"
                                        % (name, obs['text'], obs[name], args))
+            if st in ('sh', 'cmd'):
+                return self._stable(case, obs, 'escape_shell_args')
             return None     # other styles: the statement says nothing (correspondence only)
         if k == 'sh':
             args = list(case['args'])
@@ -746,14 +1079,14 @@ class C14(Property):
             self.stats['sh_quoted_args'] += len(unsafe)
             self.stats['sh_bare_args'] += len(args) - len(unsafe)
             self._nt = bool(unsafe)
-            if obs['esa'] != obs['text']:
-                return Failure('sh-esa', "escape_shell_args(style='sh') %r differs from args2sh %r" % (obs['esa'], obs['text']))
             for name, _ in SHELLS:
                 if obs[name] != args:
                     return Failure('sh-split', '%s splits %r into %r, not the arguments %r' % (name, obs['text'], obs[name], args))
             if obs['shlex'] != args:
                 return Failure('sh-shlex', 'shlex splits %r into %r, not the arguments %r' % (obs['text'], obs['shlex'], args))
-            return None
+            if obs['esa'] != obs['text']:
+                return Failure('sh-esa', "escape_shell_args(style='sh') %r differs from args2sh %r" % (obs['esa'], obs['text']))
+            return self._stable(case, obs, 'args2sh')
         if k == 'cmd':
             args = list(case['args'])
             if any('\0' in a for a in args):
@@ -761,22 +1094,38 @@ class C14(Property):
             hard = [a for a in args if a == '' or any(c in a for c in '"\\ \t')]
             self.stats['cmd_quoted_args'] += len(hard)
             self._nt = bool(hard)
-            if obs['esa'] != obs['text']:
-                return Failure('cmd-esa', "escape_shell_args(style='cmd') %r differs from args2cmd %r" % (obs['esa'], obs['text']))
             for v in 'MLD':
                 got = crt_parse(obs['text'], v)
                 if got != args:
                     return Failure('cmd-split', 'MS CRT rules (%s) split %r into %r, not the arguments %r' % (v, obs['text'], got, args))
-            return None
+            if obs['esa'] != obs['text']:
+                return Failure('cmd-esa', "escape_shell_args(style='cmd') %r differs from args2cmd %r" % (obs['esa'], obs['text']))
+            return self._stable(case, obs, 'args2cmd')
         if k == 'fmt':
-            L = case['L']
+            L = [int(x) for x in case['L']]
+            d, rd = self._dl(case)
             want = sorted(set(L))
             self._nt = len(want) < len(L) or any(b == a + 1 for a, b in zip(want, want[1:]))
+            what = 'format_int_list(%r%s)' % (case['L'], self._dlnote(case))
             if obs['parsed'] != want:
-                return Failure('int-roundtrip', 'parse_int_list(format_int_list(%r)=%r) = %r, expected %r' % (L, obs['text'], obs['parsed'], want))
-            return self._canonical(obs['text'], want, ', ' if case['sp'] else ',', 'format_int_list(%r)' % (L,))
+                return Failure('int-roundtrip', 'parse_int_list(%s=%r) = %r, expected %r' % (what, obs['text'], obs['parsed'], want))
+            f = self._canonical(obs['text'], want, d + ' ' if case['sp'] else d, what, rdelim=rd)
+            if f is None and 'alt' in obs:
+                f = self._canonical(obs['alt'], want, d if case['sp'] else d + ' ',
+                                    '(after that call, with delim_space=%r) %s' % (not case['sp'], what), rdelim=rd)
+            if f is not None:
+                return f
+            if obs['parsed2'] != want:
+                return Failure('int-roundtrip', 'parse_int_list(%s=%r) = %r, expected %r, when asked a second time after the '
+                               'caller modified the list returned the first time' % (what, obs['text'], obs['parsed2'], want))
+            runs = [list(p) for p in ind_runs(want)]
+            if obs['ranges'] != runs:
+                return Failure('int-ranges', 'int_ranges_from_int_list(%s=%r) = %r, expected the maximal ranges %r'
+                               % (what, obs['text'], obs['ranges'], runs))
+            return self._stable(case, obs, 'format_int_list')
         if k == 'compl':
-            S = self._meaning(case['s'])
+            d, rd = self._dl(case)
+            S = self._meaning(case['s'], d, rd)
             if S is None:
                 return None     # ambiguous / malformed input text: correspondence only
             a, e = case['a'], case['e']
@@ -784,41 +1133,63 @@ class C14(Property):
                 e = max(S) + 1 if S else a
             want = [x for x in range(max(a, 0), max(e, 0)) if x not in S]
             self._nt = bool(want)
-            return self._canonical(obs['text'], want, ',', 'complement_int_list(%r, %r, %r)' % (case['s'], case['a'], case['e']),
-                                   tag='complement')
+            f = self._canonical(obs['text'], want, d, 'complement_int_list(%r, %r, %r%s)' % (case['s'], case['a'], case['e'], self._dlnote(case)),
+                                tag='complement', rdelim=rd)
+            if f is None and 'alt' in obs:
+                a2, e2 = case['a'] + 1, self._alt_end(case)
+                want2 = [x for x in range(max(a2, 0), max(e2, 0)) if x not in S]
+                f = self._canonical(obs['alt'], want2, d, '(after that call) complement_int_list(%r, %r, %r%s)'
+                                    % (case['s'], a2, e2, self._dlnote(case)), tag='complement', rdelim=rd)
+            return f or self._stable(case, obs, 'complement_int_list')
         if k == 'gzip':
             self._nt = obs['n'] > 0
             if not obs['roundtrip']:
-                return Failure('gzip-roundtrip', 'gunzip_bytes(gzip_bytes(b, %d)) != b for %r' % (case['level'], case['spec']))
-            if not obs['std_gunzip'] or obs['magic'] != '1f8b':
-                return Failure('gzip-format', 'gzip_bytes output is not a gzip member the gzip module reads back (%r)' % (case['spec'],))
+                return Failure('gzip-roundtrip', 'gunzip_bytes(gzip_bytes(b%s)) != b for %r'
+                               % ('' if case['level'] is None else ', %d' % case['level'], case['spec']))
+            if not obs['std_gunzip'] or not obs['stream_gunzip'] or obs['magic'] != '1f8b':
+                return Failure('gzip-format', 'gzip_bytes output is not one complete gzip member that the gzip module / a '
+                               'streaming inflate read back (%r)' % (case['spec'],))
             return None
         return None
 
     @staticmethod
-    def _meaning(text):
-        """the set a well-formed range text denotes (tokens `n` / `lo-hi` with lo <= hi, any order, repeats
+    def _dlnote(case):
+        return ', delim=%r, range_delim=%r' % tuple(case['dl']) if 'dl' in case else ''
+
+    @staticmethod
+    def _stable(case, obs, fn):
+        """pure functions: the same call again gives the same text, list arguments come back unmodified"""
+        if obs.get('again', obs['text']) != obs['text']:
+            return Failure('unstable', '%s gave %r and then, for the same arguments, %r' % (fn, obs['text'], obs['again']))
+        if obs.get('pure') is False:
+            return Failure('input-mutated', '%s modified the list it was given (%r)' % (fn, case.get('args', case.get('L'))))
+        return None
+
+    @staticmethod
+    def _meaning(text, d=',', rd='-'):
+        """the set a well-formed range text denotes (tokens `n` / `lo<rd>hi` with lo <= hi, any order, repeats
         allowed), else None"""
         S = set()
         if text == '':
             return S
-        for tok in text.split(','):
-            m = re.fullmatch(r'([0-9]+)(?:-([0-9]+))?', tok)
+        tok_re = re.compile(r'([0-9]+)(?:%s([0-9]+))?' % re.escape(rd))
+        for tok in text.split(d):
+            m = tok_re.fullmatch(tok)
             if not m:
                 return None
             lo = int(m.group(1))
             hi = int(m.group(2)) if m.group(2) is not None else lo
-            if hi < lo:
+            if hi < lo or hi - lo > 10 ** 5:
                 return None
             S.update(range(lo, hi + 1))
         return S
 
     @staticmethod
-    def _canonical(text, want, sep, what, tag='int-canonical'):
+    def _canonical(text, want, sep, what, tag='int-canonical', rdelim='-'):
         """text must be THE canonical range string of the sorted distinct list `want`"""
-        runs = ind_read(text, sep)
+        runs = ind_read(text, sep, rdelim)
         if runs is None:
-            return Failure(tag, '%s = %r is not a list of `n` / `lo-hi` (lo < hi) tokens' % (what, text))
+            return Failure(tag, '%s = %r is not a list of `n` / `lo%shi` (lo < hi) tokens separated by %r' % (what, text, rdelim, sep))
         got = [x for lo, hi in runs for x in range(lo, hi + 1)] if sum(hi - lo + 1 for lo, hi in runs) < 10 ** 6 else None
         if got != want:
             return Failure(tag if tag == 'complement' else 'int-roundtrip',
@@ -898,6 +1269,22 @@ class C14(Property):
     # ------------------------------------------------------------------ shrinking
     def shrink(self, case):
         k = case['k']
+        pre = case.get('pre')
+        if pre:
+            for i in range(len(pre)):
+                c = dict(case, pre=pre[:i] + pre[i + 1:])
+                if not c['pre']:
+                    del c['pre']
+                yield c
+        for opt in ('form', 'plat'):
+            if opt in case:
+                c = dict(case)
+                del c[opt]
+                yield c
+        if 'dl' in case and k == 'fmt':
+            c = dict(case)
+            del c['dl']
+            yield c
         if k in ('sh', 'cmd', 'esa'):
             args = case['args']
             for i in range(len(args)):
@@ -922,9 +1309,10 @@ class C14(Property):
                 if x > 0:
                     yield dict(case, L=L[:i] + [x - 1] + L[i + 1:])
         elif k == 'compl':
-            toks = case['s'].split(',') if case['s'] else []
+            d = self._dl(case)[0]
+            toks = case['s'].split(d) if case['s'] else []
             for i in range(len(toks)):
-                yield dict(case, s=','.join(toks[:i] + toks[i + 1:]))
+                yield dict(case, s=d.join(toks[:i] + toks[i + 1:]))
             if case['e'] is not None and case['e'] > 0:
                 yield dict(case, e=case['e'] - 1)
             if case['a'] != 0:
